@@ -3,7 +3,8 @@ import numpy as np
 from harness import wavecheck as wk, waveoracle as wo, wavesim_corr as wc
 
 THEOREMS = ['C13_wsa_counts', 'C13_overflow_mark', 'C13_no_overflow_is_exact', 'C13_capture_summary', 'C13_value_before_prefix',
-            'C13_wacc_running', 'C13_wacc_final', 'C13_wacc_final_ssa', 'C13_acc_once_check_sound', 'C13_ovf_reach', 'C13_ovf_reach_clean', 'C13_circuit_capture', 'C13_flat_capture']
+            'C13_wacc_running', 'C13_wacc_final', 'C13_wacc_final_ssa', 'C13_acc_once_check_sound', 'C13_ovf_reach', 'C13_ovf_reach_clean', 'C13_circuit_capture', 'C13_flat_capture',
+            'C13_wavesim_model_capture', 'C13_wavesim_model_activity']
 
 
 def oracle(k, w):
@@ -56,7 +57,7 @@ def oracle(k, w):
 def run(ck):
     if THEOREMS:
         ck.prove('C13', THEOREMS)
-    fails, mism = wk.campaign(ck, ck.scale(40, 1200), oracle, gen_kw={'with_actrl': True, 'allow_dangling': False, 'strip_prob': 0.3}, coq_lanes=1, coq_every=2, stress_every=3, line_level=True)
+    fails, mism = wk.campaign(ck, ck.scale(40, 1200), oracle, gen_kw={'with_actrl': True, 'allow_dangling': False, 'strip_prob': 0.3}, coq_lanes=1, coq_every=2, stress_every=3, line_level=True, glue=True)
     ck.rule('random circuits x delays x capacities (incl. overflowing) x capture times (incl. ties with entries) x accumulation-control '
             'tables (shared accumulators, weights 0..3); oracle: recount from the stored waveforms (CPU and GPU capture), rerun with capacity 64')
     wk.report(ck, fails, mism, 'wavesim:capture', 'wave_sim.WaveSim capture/abuf')
